@@ -55,7 +55,7 @@ func scenarioC07(rc *RunCtx) {
 	}
 	rc.Inc(fmt.Sprintf("probe.first_falsified_index_%d", idx))
 	if a.Verdict == "flaky" {
-		return // C01
+		rc.Inc("probe.flaky_verdict_seed_judged") // the seed printed with a "flaky" report is held to the same standard
 	}
 	// R2: the printed seed
 	if a.SeedPrinted == 0 {
